@@ -702,6 +702,76 @@ Section Generic.
   Proof. reflexivity. Qed.
   Lemma cfb_dec_nil fb : cfb_dec bs E fb [] = [].
   Proof. reflexivity. Qed.
+
+  (* ================= crypto/cipher's CFB stream is textbook CFB ================= *)
+  Lemma xorl_firstn_l : forall a k n, length k <= n -> xorl (firstn n a) k = xorl a k.
+  Proof.
+    induction a as [|x a IH]; intros k n Hk.
+    - rewrite firstn_nil. reflexivity.
+    - destruct k as [|y k]; [rewrite !xorl_nil_r; reflexivity|].
+      destruct n as [|n]; [cbn in Hk; lia|]. cbn [firstn xorl]. rewrite IH by (cbn in Hk; lia). reflexivity.
+  Qed.
+
+  Lemma std_cfb_loop_nil fuel dec next out used : std_cfb_loop bs E fuel dec next out used [] = [].
+  Proof. destruct fuel; reflexivity. Qed.
+
+  Lemma wr_all d next : length d = length next -> wr 0 d next = d.
+  Proof.
+    intros H. unfold wr. cbn [firstn app Nat.add]. rewrite H, skipn_all, app_nil_r. reflexivity.
+  Qed.
+
+  Lemma std_enc_loop fuel : forall next out src,
+    full next -> full out -> length src <= fuel ->
+    std_cfb_loop bs E fuel false next out bs src = cfb_enc_aux bs E fuel next src.
+  Proof.
+    induction fuel as [|f IH]; intros next out src Hn Ho Hf; [reflexivity|].
+    cbn [std_cfb_loop cfb_enc_aux]. destruct src as [|z zs]; [reflexivity|].
+    remember (z :: zs) as m eqn:Em.
+    unfold fullb in Ho, Hn. rewrite Ho, Nat.eqb_refl. cbn [skipn Nat.add].
+    rewrite (xorl_firstn_l m (Eb next) bs) by (rewrite Eb_length; lia).
+    set (d := xorl m (Eb next)).
+    assert (Ld : length d = Nat.min (length m) bs) by (unfold d; rewrite xorl_length, Eb_length; reflexivity).
+    f_equal.
+    destruct (Nat.le_gt_cases bs (length m)) as [Hge | Hlt].
+    - assert (Ldb : length d = bs) by lia. rewrite Ldb.
+      rewrite wr_all by lia.
+      apply IH; [exact Ldb | apply Eb_length |].
+      rewrite skipn_length. assert (0 < length m) by (subst m; cbn; lia). lia.
+    - rewrite (skipn_all2 m) by lia. rewrite (skipn_all2 m) by lia.
+      rewrite std_cfb_loop_nil, cfb_enc_aux_nil. reflexivity.
+  Qed.
+
+  Lemma std_dec_loop fuel : forall next out src,
+    full next -> full out -> length src <= fuel ->
+    std_cfb_loop bs E fuel true next out bs src = cfb_dec_aux bs E fuel next src.
+  Proof.
+    induction fuel as [|f IH]; intros next out src Hn Ho Hf; [reflexivity|].
+    cbn [std_cfb_loop cfb_dec_aux]. destruct src as [|z zs]; [reflexivity|].
+    remember (z :: zs) as m eqn:Em.
+    unfold fullb in Ho, Hn. rewrite Ho, Nat.eqb_refl. cbn [skipn Nat.add].
+    rewrite (xorl_firstn_l m (Eb next) bs) by (rewrite Eb_length; lia).
+    set (d := xorl m (Eb next)).
+    assert (Ld : length d = Nat.min (length m) bs) by (unfold d; rewrite xorl_length, Eb_length; reflexivity).
+    f_equal. rewrite Nat.sub_0_r, Hn.
+    destruct (Nat.le_gt_cases bs (length m)) as [Hge | Hlt].
+    - assert (Ldb : length d = bs) by lia. rewrite Ldb.
+      rewrite Nat.min_l by lia.
+      rewrite wr_all by (rewrite firstn_length; lia).
+      apply IH; [unfold fullb; rewrite firstn_length; lia | apply Eb_length |].
+      rewrite skipn_length. assert (0 < length m) by (subst m; cbn; lia). lia.
+    - rewrite (skipn_all2 m) by lia. rewrite (skipn_all2 m) by lia.
+      rewrite std_cfb_loop_nil, cfb_dec_aux_nil. reflexivity.
+  Qed.
+
+  Theorem std_cfb_is_textbook iv msg :
+    length iv = bs ->
+    std_cfb bs E false iv msg = Some (cfb_enc bs E iv msg) /\
+    std_cfb bs E true iv msg = Some (cfb_dec bs E iv msg).
+  Proof.
+    intros Hiv. unfold std_cfb. rewrite Hiv, Nat.eqb_refl. split; f_equal.
+    - apply std_enc_loop; [exact Hiv | apply repeat_length | lia].
+    - apply std_dec_loop; [exact Hiv | apply repeat_length | lia].
+  Qed.
 End Generic.
 
 (* ---------- stream cipher and none ---------- *)
@@ -817,4 +887,19 @@ Proof.
   unfold cts. rewrite map_map. cbn [cfb_op].
   rewrite (nth_map_nil (fun m => cfb_enc bsz E (firstn bsz iv) m) ms eq_refl j).
   apply cfb_roundtrip. apply supported_pos; exact Hs.
+Qed.
+
+(* the packet code is byte-identical to the stock CFB stream keyed with the first IV block *)
+Lemma equals_stock_cfb bsz E iv msg se sd :
+  supported bsz -> bsz <= length iv -> bsz <= length se -> 2 * bsz <= length sd ->
+  option_map data (encrypt bsz E iv (mkst msg se)) = std_cfb bsz E false (firstn bsz iv) msg /\
+  option_map data (decrypt bsz E iv (mkst msg sd)) = std_cfb bsz E true (firstn bsz iv) msg.
+Proof.
+  intros Hs Hiv Hse Hsd.
+  destruct (encrypt_supported bsz E iv msg se Hs Hiv Hse) as (b1 & H1 & _).
+  destruct (decrypt_supported bsz E iv msg sd Hs Hiv Hsd) as (b2 & H2 & _).
+  rewrite H1, H2. cbn [option_map data].
+  assert (Hl : length (firstn bsz iv) = bsz) by (rewrite firstn_length; lia).
+  destruct (std_cfb_is_textbook bsz E (supported_pos bsz Hs) (firstn bsz iv) msg Hl) as [Se Sd].
+  rewrite Se, Sd. split; reflexivity.
 Qed.
